@@ -394,10 +394,14 @@ class Fn:
                     for v in adt['variants']:
                         names[v['discr']] = v['name']
                 listed = []
+                by_t = defaultdict(list)
                 for v, b in arms:
                     nm = names.get(v, str(v))
                     listed.append(nm)
-                    out[b].append(variant_prop(inner, nm))
+                    by_t[b].append(nm)
+                for b, nms in by_t.items():
+                    # several variants sharing one target establish only their disjunction
+                    out[b].append(variant_prop(inner, nms[0]) if len(nms) == 1 else f'in({inner},{"|".join(nms)})')
                 rest = [n for n in names.values() if n not in listed]
                 if len(rest) == 1:
                     out[other].append(variant_prop(inner, rest[0]))
@@ -405,9 +409,12 @@ class Fn:
                     out[other].append(f'in({inner},{"|".join(rest)})')
             else:
                 vals = []
+                by_t = defaultdict(list)
                 for v, b in arms:
                     vals.append(str(v))
-                    out[b].append(norm_cmp('eq', term, str(v), prim=True))
+                    by_t[b].append(str(v))
+                for b, vs in by_t.items():
+                    out[b].append(norm_cmp('eq', term, vs[0], prim=True) if len(vs) == 1 else 'in(' + term + ',' + '|'.join(vs) + ')')
                 out[other].append('!in(' + term + ',' + '|'.join(vals) + ')')
         self._props[bb] = out
         return out
